@@ -199,9 +199,14 @@ class Types:
         q = qual.strip()
         return q.endswith('&')
 
-    def typedefs(self):
+    def typedefs(self, scalar_elems=None):
+        """scalar_elems=True: only vectors of scalars (they may be members of records, so they precede the record structs);
+        False: the others; None: all"""
         out = []
         for name, el in self.vecs.items():
+            is_sc = el in SCALARS.values()
+            if scalar_elems is not None and is_sc != scalar_elems:
+                continue
             out.append('typedef struct { %s *data; size_t size; } %s;' % (el, name))
         return '\n'.join(out)
 
@@ -1284,6 +1289,9 @@ class Printer:
                     return list(reversed(names)), n
                 return None, n
             b = base
+        if names and b.get('kind') == 'DeclRefExpr' and b.get('referencedDecl', {}).get('id') in getattr(self, 'sz_elem_refs', {}):
+            # member of `auto& e = this->container[i]`: the fields of THE CURRENT ELEMENT, arbitrary at the binding
+            return self.sz_elem_refs[b['referencedDecl']['id']] + list(reversed(names)), n
         return None, n
 
     def sz_member(self, names, node, size=False):
@@ -1493,8 +1501,27 @@ class Printer:
                     else:
                         out += t + '%s %s; /* arbitrary */\n' % (SCALARS[tt], nm)
                 else:
-                    self.fire('sz:untracked-local')
-                    out += t + '/* untracked local %s */;\n' % v.get('name')
+                    eref = None
+                    if self.T.is_ref(q):
+                        init = [c for c in v.get('inner', []) if c.get('kind') not in ('FullComment',)]
+                        i0 = init[0] if init else {}
+                        while i0.get('kind') in ('ImplicitCastExpr', 'ParenExpr', 'ExprWithCleanups', 'MaterializeTemporaryExpr') and i0.get('inner'):
+                            i0 = i0['inner'][0]
+                        if i0.get('kind') == 'CXXOperatorCallExpr' and len(i0.get('inner', [])) == 3:
+                            f_ = self.callee_decl(i0['inner'][0])
+                            if (f_.get('name') or f_.get('referencedDecl', {}).get('name')) == 'operator[]':
+                                cn, _ = self.sz_path(i0['inner'][1])
+                                if cn:
+                                    eref = cn + ['E']
+                    if eref:
+                        if not hasattr(self, 'sz_elem_refs'):
+                            self.sz_elem_refs = {}
+                        self.sz_elem_refs[v['id']] = eref
+                        self.fire('sz:element-reference')
+                        out += t + '/*@ELEM %s@*/\n' % '_'.join(eref)
+                    else:
+                        self.fire('sz:untracked-local')
+                        out += t + '/* untracked local %s */;\n' % v.get('name')
             return out
         if k in ('ForStmt', 'WhileStmt', 'CXXForRangeStmt', 'DoStmt'):
             body = I[-1]
@@ -1614,6 +1641,36 @@ class Printer:
                 self.fire('sz:size-to-unknown')
                 return t + self.sz_havoc(szv, 'size_t') + '\n'
             sync_names = self.unit.get('sz_sync_calls', ['Sync', 'SyncHalf'])
+            if m in sync_names and len(args) == 2 and not names:
+                # raw transfer  stream.Sync((char*) X.data(), count * sizeof(T)) : in BOTH modes the container must hold `count` elements
+                a0 = args[0]
+                while a0.get('kind') in ('ImplicitCastExpr', 'ParenExpr', 'CStyleCastExpr', 'CXXReinterpretCastExpr', 'CXXStaticCastExpr') and a0.get('inner'):
+                    a0 = a0['inner'][-1]
+                if a0.get('kind') == 'CXXMemberCallExpr' and a0.get('inner') and a0['inner'][0].get('name') == 'data':
+                    cn, _ = self.sz_path(a0['inner'][0]['inner'][0]) if a0['inner'][0].get('inner') else (None, None)
+                    a1 = args[1]
+                    while a1.get('kind') in ('ImplicitCastExpr', 'ParenExpr') and a1.get('inner'):
+                        a1 = a1['inner'][0]
+                    cnt = None
+                    if a1.get('kind') == 'BinaryOperator' and a1.get('opcode') == '*':
+                        ops_ = []
+                        for x_ in a1['inner']:
+                            while x_.get('kind') in ('ImplicitCastExpr', 'ParenExpr') and x_.get('inner'):
+                                x_ = x_['inner'][0]
+                            ops_.append(x_)
+                        szof = [x_ for x_ in ops_ if x_.get('kind') == 'UnaryExprOrTypeTraitExpr' and x_.get('name') == 'sizeof']
+                        oth = [x_ for x_ in ops_ if not (x_.get('kind') == 'UnaryExprOrTypeTraitExpr' and x_.get('name') == 'sizeof')]
+                        if len(szof) == 1 and len(oth) == 1:
+                            try:
+                                cnt = self.sz_e(oth[0])
+                            except ExtractionBreak:
+                                cnt = None
+                    if cn and cnt is not None:
+                        szv = self.sz_member(cn, a0, size=True)
+                        self.fire('sz:raw-transfer-checked')
+                        return t + '__CPROVER_assert((size_t)(%s) <= %s, "raw transfer of %s: the container holds at least the transferred element count");\n' % (cnt, szv, '.'.join(cn))
+                    self.fire('sz:raw-transfer-unchecked')
+                    return t + '/* raw transfer out of reach of the size abstraction */;\n'
             if m in sync_names and len(args) >= 1 and not names:
                 a0 = args[0]
                 while a0.get('kind') in ('ImplicitCastExpr', 'ParenExpr') and a0.get('inner'):
@@ -1942,6 +1999,12 @@ def render_function(unit, docs, types):
                         p.sz_local_types[c['name']] = SCALARS[tq]
                         params.append('%s %s' % (SCALARS[tq], c['name']))
         btxt = p.st_sz(body, 0)
+        def elem_havoc(mm):
+            pre_ = mm.group(2)
+            reg_ = unit['_selfs'].get(unit['self'], {})
+            hv_ = ''.join('{ %s nd_; self->%s = nd_; } ' % (ct_, nm_) for nm_, ct_ in reg_.items() if nm_.startswith('f_' + pre_ + '_') or nm_.startswith('sz_' + pre_ + '_'))
+            return mm.group(1) + '/* another element: its fields are arbitrary */ ' + hv_
+        btxt = re.sub(r'(^[ \t]*)/\*@ELEM (\w+)@\*/', elem_havoc, btxt, flags=re.M)
         ret = 'void'
     elif unit.get('abstract'):
         btxt = p.st_abs(body, 0)
